@@ -376,11 +376,13 @@ package aggregator
 //@
 //@ func NewMocked(fun string, matcher matcher.Matcher, outFmt string, cache bool, interval uint, wait uint, dropRaw bool, out chan []byte, inBuf int, now func() time.Time, tick <-chan time.Time) (a *Aggregator, err error)
 //@   property C14
+//@   fresh
 //@   requires inBuf >= 0
-//@   modifies *
+//@   modifies spawned("(*github.com/grafana/carbon-relay-ng/aggregator.Aggregator).run")
 //@   ensures[usable; C14] err == nil ==> a != nil && a.Interval > 0 && a.Matcher.Regex != "" && a.in != nil && a.aggregations != nil && a.Interval == interval && a.Wait == wait && a.DropRaw == dropRaw
 //@
 //@ func New(fun string, matcher matcher.Matcher, outFmt string, cache bool, interval uint, wait uint, dropRaw bool, out chan []byte) (*Aggregator, error)
 //@   property C14
-//@   modifies *
+//@   fresh
+//@   modifies spawned("(*github.com/grafana/carbon-relay-ng/aggregator.Aggregator).run")
 //@   ensures[usable; C14] result1 == nil ==> result0 != nil && result0.Interval > 0 && result0.Matcher.Regex != ""
